@@ -1,5 +1,6 @@
 import Hertz.Model.Http1.Stream
 import Hertz.Spec.Http
+import Hertz.Proofs.SpecHex
 import Hertz.Proofs.Http1
 /-!
 Lemmas for C14 on chunked request bodies: the consumer loop `consumeChunked` and the drain
@@ -1094,8 +1095,9 @@ theorem spec_decodes (zd : Bytes) (zp : Nat) (t : Bytes) (hzl : zd.length ≤ 15
     have hs : encChunks [] ++ (sizeLine zd zp ++ t) = (zd ++ List.replicate zp 32) ++ 13 :: 10 :: t := by
       simp [encChunks, sizeLine]
     have h15 : ¬ zd.length > 15 := by omega
+    have hhb := Spec.Http.head_not_blank_padded zd zp 0 hz0
     rw [hs]
-    simp only [Spec.Http.chunksAux, hl, htrim, h15, if_false, hz0]
+    simp only [Spec.Http.chunksAux, hl, hhb, Bool.false_eq_true, htrim, h15, if_false, hz0]
     simp [bodyOf]
   | k :: cs, fuel + 1, acc, hcs, hf => by
     obtain ⟨hl15, hh, hdne⟩ := hcs k (by simp)
@@ -1130,8 +1132,9 @@ theorem spec_decodes (zd : Bytes) (zp : Nat) (t : Bytes) (hzl : zd.length ≤ 15
     have h4 : (k.data ++ 13 :: 10 :: (encChunks cs ++ (sizeLine zd zp ++ t))).take (n + 1) = k.data := by
       rw [← hn]; simp
     have ih := spec_decodes zd zp t hzl hz0 cs fuel (acc ++ k.data) hcs' (by simp at hf; omega)
+    have hhb := Spec.Http.head_not_blank_padded k.digits k.pad _ hh
     rw [hs]
-    simp only [Spec.Http.chunksAux, hline, htrim, h15, if_false, hh, hn, h1, h2, h3, h4]
+    simp only [Spec.Http.chunksAux, hline, hhb, Bool.false_eq_true, htrim, h15, if_false, hh, hn, h1, h2, h3, h4]
     simp [ih, bodyOf]
 
 /-- as `Spec.Http.decodeOne` calls it: the strict decoder reads `m.body` and stops before the trailer -/
